@@ -452,6 +452,9 @@ LEMMA_MAP = {
     'L0.count_unfold': ['L0_count_unfold', 'L0_sum_unfold', 'L0_count_zero', 'L0_sum_zero'],
     'L4.sum_prefix_mono': ['L4_sum_prefix_mono'],
     'L4.sum_point_update': ['L4_sum_point_update'],
+    'L1.fibre_weighted': ['L1_fibre_weighted'],
+    'L7.midrank_strict': ['L7_midrank_strict'],
+    'L0.isum_cast': ['L0_isum_cast'],
     'L1.fibre_sum(add.at)': ['L1_fibre_sum', 'L1_add_at_sum'],
     'L3.partition_count': ['L3_partition_left', 'L3_partition_right', 'L3a_count_bounds', 'L3b_count_none', 'L3b_count_all', 'L3c_ge_le_eq'],
     'L4.sum_congruence': ['L4_sum_congr', 'L4_sum_const'],
